@@ -40,7 +40,35 @@ Definition container_types : list (bytes * ty) :=
    ([86; 101; 99; 60; 79; 112; 116; 105; 111; 110; 60; 68; 105; 99; 116; 105; 111; 110; 97; 114; 121; 62; 62], TVec (TOption TDict))  (* Vec<Option<Dictionary>> *);
    ([86; 101; 99; 60; 79; 112; 116; 105; 111; 110; 60; 86; 101; 99; 60; 79; 112; 116; 105; 111; 110; 60; 105; 51; 50; 62; 62; 62; 62], TVec (TOption (TVec (TOption TI32))))  (* Vec<Option<Vec<Option<i32>>>> *);
    ([79; 112; 116; 105; 111; 110; 60; 86; 101; 99; 60; 80; 114; 105; 109; 105; 116; 105; 118; 101; 62; 62], TOption (TVec TPrim))  (* Option<Vec<Primitive>> *);
-   ([86; 101; 99; 60; 79; 112; 116; 105; 111; 110; 60; 78; 97; 109; 101; 62; 62], TVec (TOption TName))  (* Vec<Option<Name>> *)].
+   ([86; 101; 99; 60; 79; 112; 116; 105; 111; 110; 60; 78; 97; 109; 101; 62; 62], TVec (TOption TName))  (* Vec<Option<Name>> *);
+   (* the leaf types and wrappers of object/mod.rs / primitive.rs on their own *)
+   ([105; 51; 50], TI32)  (* i32 *);
+   ([117; 51; 50], TU32)  (* u32 *);
+   ([117; 115; 105; 122; 101], TUsize)  (* usize *);
+   ([102; 51; 50], TF32)  (* f32 *);
+   ([98; 111; 111; 108], TBool)  (* bool *);
+   ([78; 97; 109; 101], TName)  (* Name *);
+   ([80; 100; 102; 83; 116; 114; 105; 110; 103], TStr)  (* PdfString *);
+   ([80; 114; 105; 109; 105; 116; 105; 118; 101], TPrim)  (* Primitive *);
+   ([68; 105; 99; 116; 105; 111; 110; 97; 114; 121], TDict)  (* Dictionary *);
+   ([80; 108; 97; 105; 110; 82; 101; 102], TRef)  (* PlainRef *);
+   ([40; 41], TUnit)  (* () *);
+   ([82; 101; 102; 60; 68; 105; 99; 116; 105; 111; 110; 97; 114; 121; 62], TRef)  (* Ref<Dictionary> *);
+   ([82; 99; 82; 101; 102; 60; 68; 105; 99; 116; 105; 111; 110; 97; 114; 121; 62], TRcRef TDict)  (* RcRef<Dictionary> *);
+   ([77; 97; 121; 98; 101; 82; 101; 102; 60; 68; 105; 99; 116; 105; 111; 110; 97; 114; 121; 62], TMaybeRef TDict)  (* MaybeRef<Dictionary> *);
+   ([77; 97; 121; 98; 101; 82; 101; 102; 60; 105; 51; 50; 62], TMaybeRef TI32)  (* MaybeRef<i32> *);
+   ([76; 97; 122; 121; 60; 68; 105; 99; 116; 105; 111; 110; 97; 114; 121; 62], TLazy TDict)  (* Lazy<Dictionary> *);
+   ([66; 111; 120; 60; 105; 51; 50; 62], TBox TI32)  (* Box<i32> *);
+   ([79; 112; 116; 105; 111; 110; 60; 105; 51; 50; 62], TOption TI32)  (* Option<i32> *);
+   ([79; 112; 116; 105; 111; 110; 60; 78; 97; 109; 101; 62], TOption TName)  (* Option<Name> *);
+   ([72; 97; 115; 104; 77; 97; 112; 60; 78; 97; 109; 101; 44; 105; 51; 50; 62], TMap TI32)  (* HashMap<Name,i32> *);
+   ([72; 97; 115; 104; 77; 97; 112; 60; 78; 97; 109; 101; 44; 79; 112; 116; 105; 111; 110; 60; 105; 51; 50; 62; 62], TMap (TOption TI32))  (* HashMap<Name,Option<i32>> *);
+   ([40; 105; 51; 50; 44; 78; 97; 109; 101; 41], TPair TI32 TName)  (* (i32,Name) *);
+   ([40; 102; 51; 50; 44; 102; 51; 50; 41], TPair TF32 TF32)  (* (f32,f32) *);
+   ([86; 101; 99; 60; 105; 51; 50; 62], TVec TI32)  (* Vec<i32> *);
+   ([86; 101; 99; 60; 102; 51; 50; 62], TVec TF32)  (* Vec<f32> *);
+   ([86; 101; 99; 60; 78; 97; 109; 101; 62], TVec TName)  (* Vec<Name> *);
+   ([86; 101; 99; 60; 117; 51; 50; 62], TVec TU32)  (* Vec<u32> *)].
 Fixpoint assoc_ty (n : bytes) (l : list (bytes * ty)) : option ty :=
   match l with [] => None | (k, t) :: r => if beqb n k then Some t else assoc_ty n r end.
 
@@ -49,7 +77,14 @@ Definition ty_by_name (n : bytes) : option ty :=
   | Some (i, _) => Some (TStruct i)
   | None => match index_of n typed_hand_names 0 with
             | Some i => Some (THand i)
-            | None => assoc_ty n container_types
+            | None =>
+              match find_name ne_name n (nenums gen_schemas) 0 with
+              | Some (i, _) => Some (TNameEnum i)              (* derived name enums by name: BaseEncoding, FontType … *)
+              | None => match find_name ie_name n (ienums gen_schemas) 0 with
+                        | Some (i, _) => Some (TIntEnum i)
+                        | None => assoc_ty n container_types
+                        end
+              end
             end
   end.
 
